@@ -7,8 +7,7 @@ from harness import core
 pid = sys.argv[1]; tier = sys.argv[2] if len(sys.argv) > 2 else "quick"
 mod = importlib.import_module("harness." + pid.lower())
 cs = [c for _, c in mod.cases(tier, random.Random(int(os.environ.get("VERIF_SEED", "20260926"))))]
-lines = [getattr(mod, 'ENCODE', core.enc_line)(c) for c in cs]
-il = core.run_impl(mod, cs)
+lines, il = core.run_impl(mod, cs)
 ml = core.run_model(pid, lines)
 sig = collections.Counter(); ex = {}
 mm = 0; mmex = []
